@@ -173,6 +173,16 @@ theorem grant_before_save_elects_two :
     (∀ r ∈ [0, 1], 1 ∈ (Voter.init.run false (evs r)).sent) ∧
     (∀ r ∈ [1, 2], 2 ∈ (Voter.init.run false (evs r)).sent) := send_before_save_elects_two
 
+open Anndb.Quorum in
+/-- **C05 (one leader in every term).** The same with terms: a request of a newer term makes the
+replica adopt it and frees its vote, term and vote are stored together before the grant leaves.
+Whatever requests and crashes each replica sees, no term has two candidates holding a majority. -/
+theorem at_most_one_leader_in_any_term (n : Nat) (evs : Nat → List VEvT) (t c₁ c₂ : Nat) (Q₁ Q₂ : List Nat)
+    (h₁ : Majority n Q₁) (h₂ : Majority n Q₂)
+    (g₁ : ∀ r ∈ Q₁, (t, c₁) ∈ (VoterT.init.run true (evs r)).sent)
+    (g₂ : ∀ r ∈ Q₂, (t, c₂) ∈ (VoterT.init.run true (evs r)).sent) : c₁ = c₂ :=
+  election_safety_every_term n evs t c₁ c₂ Q₁ Q₂ h₁ h₂ g₁ g₂
+
 /-! ## non-vacuity -/
 
 def sampleRun : List Ready :=
